@@ -8,6 +8,8 @@ import (
 	"runtime"
 	"sort"
 	"strings"
+
+	"golang.org/x/tools/go/ssa"
 )
 
 func main() {
@@ -82,8 +84,8 @@ func main() {
 			for i, h := range fv.headers {
 				var phis []string
 				for _, in := range h.Instrs {
-					if p, ok := in.(interface{ Comment() string }); ok {
-						_ = p
+					if p, ok := in.(*ssa.Phi); ok {
+						phis = append(phis, p.Comment+":"+p.Name())
 					}
 				}
 				fmt.Printf("  loop %d  block %d (%s)  %s  %q %v\n", i, h.Index, h.Comment, fv.loopSrc[h], fv.loopText(h), phis)
